@@ -61,6 +61,7 @@ def run(prog, chk):
                         "that the saved font reloads"]
     static, special = fallback_tables(prog, chk)
     sites, consumed = r161(prog, chk, static, special)
+    chk.decided += ["every bit the UFO specification allows in a bit-list attribute reaches its field: intListToNum windows cover the whole valid range (R16.11)", "a built name record is skipped only when a record with the same four keys exists (R16.10)", "style-map bits follow the OpenType assignment (R16.9)"]
     chk.guard(r162, prog, chk, special)
     chk.guard(r166, prog, chk, special)
     chk.guard(r163, prog, chk)
@@ -71,6 +72,7 @@ def run(prog, chk):
     chk.guard(r168, prog, chk)
     chk.guard(r169, prog, chk)
     chk.guard(r1610, prog, chk)
+    chk.guard(r1611, prog, chk)
 
 
 # ------------------------------------------------------------------------- tables
@@ -945,7 +947,71 @@ def r1610(prog, chk):
     chk.minimum("R16.10", 2)
 
 
+
+# ----------------------------------------------------------------------------- R16.11
+BIT_LIST_ATTRS = {  # UFO3 bit-list attributes -> number of bits the UFO specification allows (fontTools.ufoLib validators)
+    "openTypeOS2UnicodeRanges": 128, "openTypeOS2CodePageRanges": 64, "openTypeOS2Selection": 16, "openTypeOS2Type": 16, "openTypeHeadFlags": 16,
+}
+
+
+def r1611(prog, chk):
+    """Every bit a UFO may set in a bit-list attribute has a place in the compiled field: the list is converted with the
+    package's own total conversion intListToNum, in windows that together cover the whole range the UFO specification
+    allows (no helper that rejects valid bits, no window left out)."""
+    ix = prog.ix
+    n = 0
+    for fi in ix.functions.values():
+        if fi.module.name != "ufo2ft.outlineCompiler":
+            continue
+        for st in A.stmts_of(fi.node):
+            if not (isinstance(st, ast.Assign) and isinstance(st.targets[0], ast.Name)):
+                continue
+            gets = [c for c in ast.walk(st.value) if isinstance(c, ast.Call) and A.callee_name(c) == "getAttrWithFallback" and len(c.args) == 2
+                    and isinstance(c.args[1], ast.Constant) and c.args[1].value in BIT_LIST_ATTRS]
+            if not gets:
+                continue
+            attr = gets[0].args[1].value
+            var = st.targets[0].id
+            n += 1
+            # every use of the list: membership in an intListToNum window, a None / emptiness test, a copy, or an append of a constant bit
+            windows, other = [], []
+            for u in A.body_nodes(fi.node):
+                if isinstance(u, ast.Name) and u.id == var and isinstance(u.ctx, ast.Load) and any(d.binder is st for d in prog.reaching(fi, u.id, u)):
+                    par = ix.parent(u)
+                    if isinstance(par, ast.Call) and A.callee_name(par) == "intListToNum" and par.args and par.args[0] is u and len(par.args) == 3 \
+                            and all(isinstance(a_, ast.Constant) and isinstance(a_.value, int) for a_ in par.args[1:]):
+                        windows.append((par.args[1].value, par.args[2].value))
+                    elif isinstance(par, ast.Compare) or isinstance(par, (ast.If, ast.BoolOp, ast.UnaryOp)) or (isinstance(par, ast.Call) and A.callee_name(par) in ("list", "set", "sorted")) \
+                            or (isinstance(par, ast.Attribute) and par.attr in ("append", "extend")) or isinstance(par, ast.AugAssign):
+                        continue
+                    else:
+                        other.append(T(ix.enclosing_stmt(u), 60))
+            covered = set()
+            for a_, l_ in windows:
+                covered |= set(range(a_, a_ + l_))
+            ok = not other and covered >= set(range(BIT_LIST_ATTRS[attr])) and sum(l_ for _a, l_ in windows) == len(covered)
+            chk.ob("R16.11", f"{fi.short}|{attr}|every valid bit has its place (intListToNum windows cover 0..{BIT_LIST_ATTRS[attr] - 1})", ok, where(fi, st), detail=f"windows {sorted(windows)}; other uses {other}",
+                   message=f"{fi.short}: the bits of {attr} do not all reach the table through intListToNum windows covering 0..{BIT_LIST_ATTRS[attr] - 1} (windows {sorted(windows)}, other uses "
+                           f"{other}): a bit the UFO specification allows is dropped, misplaced or makes the compile fail")
+        # a list converted where it is read: intListToNum(getAttrWithFallback(info, <attr>), start, length)
+        for c in A.body_nodes(fi.node):
+            if isinstance(c, ast.Call) and A.callee_name(c) == "intListToNum" and len(c.args) == 3 and isinstance(c.args[0], ast.Call) and A.callee_name(c.args[0]) == "getAttrWithFallback" \
+                    and len(c.args[0].args) == 2 and isinstance(c.args[0].args[1], ast.Constant) and c.args[0].args[1].value in BIT_LIST_ATTRS:
+                attr = c.args[0].args[1].value
+                n += 1
+                ok = all(isinstance(a_, ast.Constant) and isinstance(a_.value, int) for a_ in c.args[1:]) and c.args[1].value == 0 and c.args[2].value >= BIT_LIST_ATTRS[attr]
+                chk.ob("R16.11", f"{fi.short}|{attr}|every valid bit has its place (intListToNum windows cover 0..{BIT_LIST_ATTRS[attr] - 1})", ok, where(fi, c), detail=T(c, 80),
+                       message=f"{fi.short}: the bits of {attr} are not converted over the whole range 0..{BIT_LIST_ATTRS[attr] - 1} (`{T(c, 70)}`)")
+    need(n >= 5, f"bit-list attributes read in the outline compiler: {n}")
+    chk.minimum("R16.11", 5)
+
+
 MUTANTS = [
+    M("unicode ranges set through the fontTools helper that rejects bits above 122 (seeded C16i)", "ufo2ft/outlineCompiler.py", "BaseOutlineCompiler.setupTable_OS2",
+      "os2.ulUnicodeRange1 = intListToNum(uniRanges, 0, 32)\nos2.ulUnicodeRange2 = intListToNum(uniRanges, 32, 32)\nos2.ulUnicodeRange3 = intListToNum(uniRanges, 64, 32)\nos2.ulUnicodeRange4 = intListToNum(uniRanges, 96, 32)",
+      "os2.setUnicodeRanges(uniRanges)", rule="R16.11"),
+    M("fourth unicode range window starts at the wrong bit", "ufo2ft/outlineCompiler.py", "BaseOutlineCompiler.setupTable_OS2",
+      "intListToNum(uniRanges, 96, 32)", "intListToNum(uniRanges, 64, 32)", rule="R16.11"),
     M("zero-valued overrides of a variable font are dropped (seeded C16g)", "ufo2ft/infoCompiler.py", "InfoCompiler._set_attrs",
       "if (value := getattr(temp, attr, None)) is not None:\n    setattr(orig, attr, value)", "value = getattr(temp, attr, None) or getattr(orig, attr, None)\nif value is not None:\n    setattr(orig, attr, value)", rule="R16.4"),
     M("overrides only copied when truthy", "ufo2ft/infoCompiler.py", "InfoCompiler._set_attrs",
